@@ -1,7 +1,7 @@
 (* C03 property theorems ONLY (each closed by an already proved lemma) + assumptions. *)
 From Coq Require Import List ZArith Reals Lra Lia.
 From Coquelicot Require Import Coquelicot.
-From RV Require Import Common.Num Common.RealNum C03.Model C03.Proofs C03.Flow C03.Derivs C03.Series.
+From RV Require Import Common.Num Common.RealNum C03.Model C03.Proofs C03.Flow C03.Derivs C03.Series C03.Series2 C03.Solve C03.Extra.
 Import ListNotations.
 Open Scope R_scope.
 
@@ -170,6 +170,131 @@ Theorem C03_series3_truncation_tenth : forall z, 0 < z <= 1 / 10 ->
 Proof. exact series3_trunc_pos_tenth. Qed.
 Print Assumptions C03_series3_truncation_tenth.
 
+(* ------------------------------------------------------------------ round 3 *)
+
+(* f-g determinant in the form C04_fg_step_and_com_drift_conserve_lz consumes: with f = 1 + f_code, gd = 1 + gd_code,
+   f gd - fd g = 1, and the model's update IS the linear map (x,v) -> (f x + g v, fd x + gd v). *)
+Theorem C03_fg_determinant : forall (p : P6) (M dt r0 beta X G0 G1 G2 G3 : R),
+  kepler_hyp p M dt r0 beta X G0 G1 G2 G3 ->
+  let '(fc, g, fd, gdc) := fg_coeffs RNum M dt (1 / r0) (1 / new_radius p M r0 beta G1 G2) G1 G2 G3 in
+  let f := 1 + fc in let gd := 1 + gdc in
+  f * gd - fd * g = 1 /\
+  forall x y z vx vy vz,
+    fg_apply RNum (fc, g, fd, gdc) (x, y, z, vx, vy, vz) =
+    (f * x + g * vx, f * y + g * vy, f * z + g * vz, fd * x + gd * vx, fd * y + gd * vy, fd * z + gd * vz).
+Proof. exact fg_determinant. Qed.
+Print Assumptions C03_fg_determinant.
+
+(* Series truncation, hyperbolic branch and both signs on the range the code uses. *)
+Theorem C03_series3_truncation_neg : forall z, -1 <= z < 0 ->
+  let '(t0, t1, t2, t3) := series3 RNum z in
+  let '(c0, c1, c2, c3) := Ccf z in
+  Rabs (c0 - t0) <= 2 * ((- z) ^ 7 / 87178291200) /\
+  Rabs (c1 - t1) <= 2 * ((- z) ^ 7 / 1307674368000) /\
+  Rabs (c2 - t2) <= 2 * ((- z) ^ 6 / 87178291200) /\
+  Rabs (c3 - t3) <= 2 * ((- z) ^ 6 / 1307674368000).
+Proof. exact series3_trunc_neg. Qed.
+Print Assumptions C03_series3_truncation_neg.
+
+Theorem C03_series3_truncation_all : forall z, Rabs z <= 1 / 10 ->
+  let '(t0, t1, t2, t3) := series3 RNum z in
+  let '(c0, c1, c2, c3) := Ccf z in
+  Rabs (c0 - t0) <= 24 / 10 ^ 19 /\ Rabs (c1 - t1) <= 16 / 10 ^ 20 /\
+  Rabs (c2 - t2) <= 24 / 10 ^ 18 /\ Rabs (c3 - t3) <= 16 / 10 ^ 19.
+Proof. exact series3_trunc_tenth. Qed.
+Print Assumptions C03_series3_truncation_all.
+
+(* stumpff_cs's 15-term series (model term series5) against the closed forms c1..c3 and c4 = (1/2-c2)/z, c5 = (1/6-c3)/z *)
+Theorem C03_series5_truncation_pos : forall z, 0 < z <= 1 ->
+  let '(t1, t2, t3, t4, t5) := series5 RNum z in
+  let '(c0, c1, c2, c3) := Ccf z in
+  let '(c4, c5) := Ccf45 z in
+  Rabs (c1 - t1) <= z ^ 8 / 355687428096000 /\
+  Rabs (c2 - t2) <= z ^ 7 / 20922789888000 /\
+  Rabs (c3 - t3) <= z ^ 7 / 355687428096000 /\
+  Rabs (c4 - t4) <= z ^ 6 / 20922789888000 /\
+  Rabs (c5 - t5) <= z ^ 6 / 355687428096000.
+Proof. exact series5_trunc_pos. Qed.
+Print Assumptions C03_series5_truncation_pos.
+
+Theorem C03_series5_truncation_neg : forall z, -1 <= z < 0 ->
+  let '(t1, t2, t3, t4, t5) := series5 RNum z in
+  let '(c0, c1, c2, c3) := Ccf z in
+  let '(c4, c5) := Ccf45 z in
+  Rabs (c1 - t1) <= 2 * ((- z) ^ 8 / 355687428096000) /\
+  Rabs (c2 - t2) <= 2 * ((- z) ^ 7 / 20922789888000) /\
+  Rabs (c3 - t3) <= 2 * ((- z) ^ 7 / 355687428096000) /\
+  Rabs (c4 - t4) <= 2 * ((- z) ^ 6 / 20922789888000) /\
+  Rabs (c5 - t5) <= 2 * ((- z) ^ 6 / 355687428096000).
+Proof. exact series5_trunc_neg. Qed.
+Print Assumptions C03_series5_truncation_neg.
+
+(* Existence and uniqueness of the solution of the universal Kepler equation, elliptic case:
+   Fk beta r0 eta0 M X = r0 X + eta0 G2(X) + (M - beta r0) G3(X) with the closed-form G's. *)
+Theorem C03_kepler_equation_has_solution : forall beta r0 eta0 M dt, 0 < beta -> 0 < M ->
+  Fk beta r0 eta0 M (solveX beta r0 eta0 M dt) = dt.
+Proof. exact solveX_spec. Qed.
+Print Assumptions C03_kepler_equation_has_solution.
+
+Theorem C03_kepler_equation_solution_unique : forall beta r0 eta0 M dt X, 0 < beta -> 0 < M ->
+  0 < r0 * (2 * M - beta * r0) - eta0 * eta0 ->
+  Fk beta r0 eta0 M X = dt -> X = solveX beta r0 eta0 M dt.
+Proof. exact solveX_unique. Qed.
+Print Assumptions C03_kepler_equation_solution_unique.
+
+(* the exact step as a function on the elliptic domain (M > 0, r > 0, beta > 0, x × v <> 0) *)
+Theorem C03_kflow_is_exact_step : forall M dt p, ell_dom M p -> exact_step M dt p (kflow M dt p).
+Proof. exact kflow_exact. Qed.
+Print Assumptions C03_kflow_is_exact_step.
+
+Theorem C03_kflow_unique : forall M dt p X, ell_dom M p ->
+  Fk (kbeta M p) (radius p) (xdotv p) M X = dt -> kstep M dt X p = kflow M dt p.
+Proof. exact kflow_unique. Qed.
+Print Assumptions C03_kflow_unique.
+
+Theorem C03_kflow_invariants : forall M dt p, ell_dom M p ->
+  let p' := kflow M dt p in
+  angmom p' = angmom p /\ kbeta M p' = kbeta M p /\ energy M p' = energy M p /\ evecM M p' = evecM M p /\
+  ell_dom M p'.
+Proof. exact kflow_facts. Qed.
+Print Assumptions C03_kflow_invariants.
+
+(* the group law as an EQUATION between states (this is the form C09's drift laws use) *)
+Theorem C03_kflow_group : forall M dt1 dt2 p, ell_dom M p ->
+  kflow M dt2 (kflow M dt1 p) = kflow M (dt1 + dt2) p.
+Proof. exact kflow_group. Qed.
+Print Assumptions C03_kflow_group.
+
+(* the model's Newton step over R is the Newton iterate; its fixed points are the roots *)
+Theorem C03_newton_step_is_newton_iterate : forall beta r0 eta0 zeta0 dt X,
+  let '(G0, G1, G2, G3) := fst (stiefel_Gs3 RNum beta X) in
+  let r := r0 + (eta0 * G1 + zeta0 * G2) in
+  let F := r0 * X + eta0 * G2 + zeta0 * G3 - dt in
+  r <> 0 ->
+  fst (fst (fst (newton_step RNum beta r0 eta0 zeta0 dt X))) = X - F / r /\
+  (fst (fst (fst (newton_step RNum beta r0 eta0 zeta0 dt X))) = X <-> F = 0).
+Proof. exact newton_step_R. Qed.
+Print Assumptions C03_newton_step_is_newton_iterate.
+
+Theorem C03_newton_contraction : forall beta r0 eta0 M dt Xs X q Q, 0 < q ->
+  (forall xi, q <= rk beta r0 eta0 M xi <= Q) ->
+  Fk beta r0 eta0 M Xs = dt ->
+  let N := X - (Fk beta r0 eta0 M X - dt) / rk beta r0 eta0 M X in
+  Rabs (N - Xs) <= (Q - q) / q * Rabs (X - Xs).
+Proof. exact newton_contraction. Qed.
+Print Assumptions C03_newton_contraction.
+
+(* the model's bisection loop over R exits by its own test within its fuel for brackets bounded away from 0 *)
+Theorem C03_bisection_terminates_R : forall beta r0 eta0 zeta0 dt sf m, 0 < m ->
+  forall fuel X Xmin Xmax Gs cnt hang,
+  (m <= Xmin \/ Xmax <= - m) -> Xmin <= Xmax -> X = (Xmax + Xmin) / 2 ->
+  Xmax - Xmin <= 2 ^ fuel * (2 * m / 10 ^ 15) ->
+  let res := bisect_loop RNum beta r0 eta0 zeta0 dt sf (S fuel) X Xmin Xmax Gs cnt hang in
+  snd res = false /\ Xmin <= fst (fst (fst (fst res))) <= Xmax /\
+  (snd (fst (fst res)) <= cnt + S fuel)%nat.
+Proof. exact bisect_terminates_R. Qed.
+Print Assumptions C03_bisection_terminates_R.
+
 (* Non-vacuity: an eccentric elliptic state (e = 3/5, beta = 1) and a parabolic one (beta = 0) with
    rational G's meet every hypothesis of C03_fg_step_on_exact_orbit; C03_fg_step_closed_form and
    Gcf_identities show the intended (transcendental) instance meets them for all beta, X. *)
@@ -177,3 +302,10 @@ Example C03_hypotheses_inhabited :
   kepler_hyp (1, 0, 0, 3/5, 4/5, 0) 1 (31/25) 1 1 1 (3/5) (4/5) (2/5) (1/5) /\
   kepler_hyp (1, 0, 0, 1, 1, 0) 1 (5/3) 1 0 1 1 1 (1/2) (1/6).
 Proof. unfold kepler_hyp, pos2, vel2, xdotv. cbv zeta. repeat split; lra. Qed.
+
+(* the elliptic domain of kflow is inhabited (circular orbit of radius 1, M = 1) *)
+Example C03_ell_dom_inhabited : ell_dom 1 (1, 0, 0, 0, 1, 0).
+Proof.
+  unfold ell_dom, radius, pos2, vel2, h2of, xdotv, pos2, vel2.
+  replace (1 * 1 + 0 * 0 + 0 * 0) with 1 by ring. rewrite sqrt_1. repeat split; lra.
+Qed.
